@@ -189,8 +189,7 @@ def _seen_atom(facts, found):
                 hit.append(pc[1])
                 return 'c' if pos else ('not', 'c')
             return None
-        cret = interp(facts, q['cb']).ret
-        tv = {v: Evaluator(facts, bool_atom=ba, assumption={'c': v}).ev(cret) for v in (True, False)}
+        tv = {v: closure_value(facts, q['cb'], bool_atom=ba, assumption={'c': v}, acc=q.get('acc')) for v in (True, False)}
         if not hit:
             return None
         if q['kind'] == 'forall' and tv == {True: True, False: False}:
